@@ -129,7 +129,8 @@ Fixpoint read_modules (l : list dmodule) : res (list smodule) :=
   end.
 
 (* the constructor's loop over the connections: connections[i].SourceIndex (nil pointer), then
-   adjacentList[crs], reverseAdjacentList[crt], adjacentMatrix[crs][crt] (index out of range) *)
+   reverseAdjacentList[crt] (searched for crs: parallel connections share one entry), adjacentList[crs],
+   adjacentMatrix[crs][crt] (index out of range whichever of the two indices is outside) *)
 Definition idx_ok (t i : Z) : bool := (0 <=? i) && (i <? t).
 
 Fixpoint conns_of (t : Z) (l : list (option slink)) : res (list slink) :=
